@@ -301,9 +301,10 @@ def corpus():
     abbrevs, modkeys = _tables()
     # every abbreviation once, with and without bass
     for ki in range(len(abbrevs)):
-        out.append({'op': 'chord', 'input': {'sym': {'root': [ki % 7, (ki % 5) - 2], 'kind': ki, 'mods': [],
-                                                     'bass': [(ki + 3) % 7, (ki % 3) - 1] if ki % 2 else None},
-                                             'k': (ki * 5) % 23 - 11}})
+        sym = {'root': [ki % 7, (ki % 5) - 2], 'kind': ki, 'mods': [],
+               'bass': [(ki + 3) % 7, (ki % 3) - 1] if ki % 2 else None}
+        # ('m7b5' and '-7b5' always read as 'm7' / '-7' + 'b5': use the structure the grammar sees)
+        out.append({'op': 'chord', 'input': {'sym': sym_of_figure(render(sym)), 'k': (ki * 5) % 23 - 11}})
     for i, f in enumerate(BAD_FIGURES):
         out.append({'op': 'chord_bad', 'input': {'fig': f, 'k': i - 5}})
     # boundary notes: pitch+k exactly on / one outside the allowed range, drum outside the range
